@@ -669,7 +669,7 @@ package middleware
 //@ requires forall k string :: in(k, d.routers) ==> d.routers[k] != nil
 //@ ensures [C01:sound] forall j int :: 0 <= j && j < len(result) ==> in(result[j], d.routers) && result[j] != ret(TU,0,0) && exists i int :: called(RL,i) && ret(RL,i,2) && arg(RL,i,0) == d.routers[result[j]]
 //@ ensures [C01:complete] forall k string :: in(k, d.routers) && k != ret(TU,0,0) ==> called(RL,mapidx(k)) && arg(RL,mapidx(k),0) == d.routers[k] && (ret(RL,mapidx(k),2) ==> exists j int :: 0 <= j && j < len(result) && result[j] == k)
-//@ assigns \nothing
+//@ assigns comp:F!middleware/denco.Param!Name, comp:F!middleware/denco.Param!Value
 //@ loop 0 invariant calls(TU) == 1 && 0 <= mappos && mappos <= mapcard && (methods == nil || fresh(methods))
 //@ loop 0 invariant forall i int :: called(RL,i) ==> 0 <= i && i < mappos && mapkey(i) != ret(TU,0,0) && arg(RL,i,0) == d.routers[mapkey(i)]
 //@ loop 0 invariant forall i int :: 0 <= i && i < mappos && mapkey(i) != ret(TU,0,0) ==> called(RL,i)
